@@ -134,3 +134,6 @@ func (n *Node) Spec(genesisRoot []byte, txsOf func(uint64) ([][]byte, bool), atR
 		EmptyDataHash: block.VerifDataHashForEmptyTxs(),
 	}
 }
+
+// StoreOn returns a pkg/store view of a raw datastore (prefixed like the node does).
+func StoreOn(raw ds.Batching) storepkg.Store { return storepkg.New(MainKV(raw)) }
